@@ -1075,6 +1075,7 @@ func (ptw *partitionWriter) newWriteBatch() *writeBatch {
 func (ptw *partitionWriter) awaitBatch(batch *writeBatch) {
 	select {
 	case <-batch.timer.C:
+		verifPoint("writer.awaitBatch.timer")
 		ptw.mutex.Lock()
 		// detach the batch from the writer if we're still attached
 		// and queue for writing.
